@@ -17,6 +17,7 @@ import (
 	"encoding/json"
 	"fmt"
 	"io"
+	"math"
 	"os"
 	"strconv"
 	"strings"
@@ -411,7 +412,10 @@ func (w *vbWorld) delK(r int) (bool, error) {
 
 func (w *vbWorld) putObj(r int) (bool, error) {
 	rep := w.reps[r]
-	if _, err := rep.PutToObject("obj", map[string]interface{}{"a": w.fresh("o"), "b": []interface{}{w.fresh("o")}}); err != nil {
+	// besides string-keyed containers the value carries Go maps with other key types (C14: the issuing replica builds
+	// its effect from the Go value, every other replica from the JSON body of the operation)
+	if _, err := rep.PutToObject("obj", map[string]interface{}{"a": w.fresh("o"), "b": []interface{}{w.fresh("o")},
+		"u": map[uint64]interface{}{math.MaxUint64: w.fresh("o"), 7: int8(-3)}, "i": map[int8]string{-3: "z", 5: "y"}}); err != nil {
 		return true, fmt.Errorf("C03 PutToObject(obj) refused: %v", err)
 	}
 	return true, nil
